@@ -48,7 +48,11 @@ TraceBlobAdd == IsEv("BLOB.Add") /\ StageBlobs(E.t, SetOf(E.ids))
 TraceBlobRemove == IsEv("BLOB.Remove") /\ BlobRemove(E.t, SetOf(E.ids))
 TracePLogAdd == IsEv("PLOG.Add") /\ PLogAdd(E.t)
 TracePLogRemove == IsEv("PLOG.Remove") /\ PLogRemove(E.t)
-TraceLock == IsEv("L2.Lock") /\ Lock(E.t, NodeKeys(E.keys), E.ok)
+\* locks on keys the model does not hold (registry sector locks, store locks, item locks) may be refused for reasons
+\* outside the model (e.g. an earlier Unlock of a sector lock failed): a refusal that involves such keys changes nothing
+TraceLock == /\ IsEv("L2.Lock")
+             /\ IF ~E.ok /\ NodeKeys(E.keys) # SetOf(E.keys) THEN UNCHANGED vars
+                ELSE Lock(E.t, NodeKeys(E.keys), E.ok)
 \* IsLocked answers for the node keys and for other keys (item locks, sector locks) alike: only a positive answer
 \* is checked against the model
 TraceIsLocked == /\ IsEv("L2.IsLocked")
